@@ -59,9 +59,9 @@ def main():
             for dp, dn, fn in os.walk(os.path.join(keep, sub)):
                 for f in fn:
                     src = os.path.join(dp, f)
-                    dst = os.path.join(ROOT, os.path.relpath(src, keep))
-                    if not os.path.exists(dst) or open(src, "rb").read() != open(dst, "rb").read():
-                        shutil.copy(src, dst)
+                    back = os.path.join(ROOT, os.path.relpath(src, keep))
+                    if not os.path.exists(back) or open(src, "rb").read() != open(back, "rb").read():
+                        shutil.copy(src, back)
         shutil.rmtree(keep, ignore_errors=True)
     res["alarms"] = sorted(p for p, c in res["checks"].items() if c["exit"] != 0)
     json.dump(res, open(os.path.join(dst, "result.json"), "w"), indent=1)
